@@ -31,7 +31,15 @@ def correspondence(ctx):
     n = ctx.scale(1, 3)
     allc = S.gen_cases(ctx, n, 1, ctx.scale(3, 0))
     cases = [c for c in allc if c["op"] in ("dec", "decrec") and not c["feats"].startswith("cut")]
-    res, restarts = S.run_dec_child(cases)
+    # the cases that announce a huge frame AND a huge length kill the child (known residual F8b): run
+    # them in a second pass, so that their deaths do not use up the restart budget of the others
+    huge = [c for c in cases if "declared-huge" in c["feats"]]
+    rest = [c for c in cases if "declared-huge" not in c["feats"]]
+    res, restarts = S.run_dec_child(rest)
+    if huge:
+        res2, restarts2 = S.run_dec_child(huge, max_restarts=400)
+        res.update(res2)
+        restarts += restarts2
     for c in cases:
         c["go"] = res.get(c["id"], "not-run")
         if c["op"] == "decrec" and c["go"].startswith("ok"):
